@@ -383,3 +383,101 @@ func c14mergedRangeReachesLastShard(c *an.Ctx) {
 		}
 	}
 }
+
+func init() {
+	old := All["C14"].Run
+	All["C14"].Run = func(c *an.Ctx) {
+		old(c)
+		c14columnEndTimeAdvances(c)
+	}
+	All["C14"].Rules += " R8"
+	addLevel("C14", "A column that is written into a later shard group has its end time advanced in the catalogue, so the schema clean-up of an expired group does not delete columns (or the measurement) that newer, unexpired groups still use.")
+}
+
+// c14columnEndTimeAdvances — C14.R8.  With schema-clean-enable the prune of an expired shard group
+// deletes every column whose EndTime <= the group's end, and the measurement with its last column.
+// UpdateSchema is the only place that records "this column was written into a later group": it must
+// compare the stored EndTime of an existing column with the command's end time and store the later one.
+func c14columnEndTimeAdvances(c *an.Ctx) {
+	r := c.Rule("C14.R8", "K-GUARD(presence)", metaPkg+":(*Data).UpdateSchema — the end time of an existing column is compared with the command's end time and advanced")
+	f := fn(r, metaPkg+":Data.UpdateSchema")
+	if f == nil {
+		return
+	}
+	defs := localDefs(f)
+	fromSchema := func(n ast.Node) bool {
+		ix, ok := n.(*ast.IndexExpr)
+		if !ok {
+			return false
+		}
+		t := f.Info.TypeOf(ix.X)
+		if t == nil {
+			return false
+		}
+		m, ok := t.Underlying().(*types.Map)
+		return ok && strings.HasSuffix(m.Elem().String(), "SchemaVal")
+	}
+	fromCmd := func(n ast.Node) bool {
+		ce, ok := n.(*ast.CallExpr)
+		if !ok {
+			return false
+		}
+		sel, ok := ce.Fun.(*ast.SelectorExpr)
+		return ok && sel.Sel.Name == "GetEndTime"
+	}
+	isStoredEnd := func(e ast.Expr) bool {
+		sel, ok := ast.Unparen(e).(*ast.SelectorExpr)
+		return ok && sel.Sel.Name == "EndTime" && derivesFrom(f, defs, sel.X, fromSchema, 0)
+	}
+	var cmp *ast.BinaryExpr
+	ast.Inspect(f.Body, func(n ast.Node) bool {
+		be, ok := n.(*ast.BinaryExpr)
+		if !ok {
+			return true
+		}
+		switch be.Op.String() {
+		case "<", ">", "<=", ">=":
+		default:
+			return true
+		}
+		if (isStoredEnd(be.X) && derivesFrom(f, defs, be.Y, fromCmd, 0)) || (isStoredEnd(be.Y) && derivesFrom(f, defs, be.X, fromCmd, 0)) {
+			cmp = be
+		}
+		return true
+	})
+	r.AddSites(1)
+	if cmp == nil {
+		r.Fail(f.Name+": end time of an existing column never advanced", c.P.Pos(f.Body.Pos()), "UpdateSchema no longer compares the stored EndTime of an existing column with the command's GetEndTime(): a column keeps the end time of the shard group it was created in, and the schema clean-up of that group deletes it although newer groups hold rows of it")
+		return
+	}
+	// the comparison guards a store of a SchemaVal carrying the command's end time
+	stored := false
+	for p := f.Parent(cmp); p != nil && !stored; p = f.Parent(p) {
+		ifs, ok := p.(*ast.IfStmt)
+		if !ok {
+			continue
+		}
+		ast.Inspect(ifs, func(n ast.Node) bool {
+			as, ok := n.(*ast.AssignStmt)
+			if !ok {
+				return true
+			}
+			for i, l := range as.Lhs {
+				if i >= len(as.Rhs) {
+					break
+				}
+				if ix, ok := ast.Unparen(l).(*ast.IndexExpr); ok && fromSchema(ix) && derivesFrom(f, defs, as.Rhs[i], fromCmd, 0) {
+					stored = true
+				}
+				if sel, ok := ast.Unparen(l).(*ast.SelectorExpr); ok && sel.Sel.Name == "EndTime" && derivesFrom(f, defs, as.Rhs[i], fromCmd, 0) {
+					stored = true
+				}
+			}
+			return true
+		})
+		break
+	}
+	if !stored {
+		r.Fail(f.Name+": comparison does not store", c.P.Pos(cmp.Pos()), "the comparison of the stored EndTime with the command's end time does not guard a store of the later end time into the schema")
+	}
+}
